@@ -127,3 +127,29 @@ func H_C05_anchorSurvivesRestart() {
 		zzverif.Assert(rec.Data.StartingBlockHeight == start0, "C05.stored_start_height_survives_restart")
 	}
 }
+
+// H_C05_startHeightIsOnRecordWhenTheWaitBegins: the height every Bitcoin window check is relative to is
+// taken when the taker starts waiting for the opening transaction - and it is on record from then on: when
+// the transition that set it has settled, the stored record carries the same height as the live swap (a
+// restart would otherwise take a later height, cf. H_C05_anchorSurvivesRestart).
+// Bounds: swap-out taker entering the wait through the agreement (fee invoice accepted and paid), no
+// injected faults.
+func H_C05_startHeightIsOnRecordWhenTheWaitBegins() {
+	sc := vBuild(rOutSender, State_SwapOutSender_AwaitAgreement, false, 7)
+	w := sc.env.w
+	w.maxFaults = 0
+	w.maxPayAttempts = 1
+	// before the wait the swap has no start height yet
+	sc.sm.Data.StartingBlockHeight = 0
+	sc.env.store.recs[sc.id] = vSnapshot(sc.sm)
+	zzverif.Unwind(30)
+	sc.vApply(stMsgAgreement)
+	if sc.vCurrent() != State_SwapOutSender_AwaitTxBroadcastedMessage {
+		return
+	}
+	zzverif.Reach("c05.wait_for_opening_tx_begun")
+	live := sc.sm.Data.StartingBlockHeight
+	zzverif.Assert(w.heightSeen && live == w.lastHeight, "C05.start_height_is_the_height_read_when_the_wait_began")
+	rec, ok := sc.env.store.recs[sc.id]
+	zzverif.Assert(ok && rec.Data.StartingBlockHeight == live, "C05.start_height_is_on_record_when_the_wait_begins")
+}
